@@ -27,7 +27,8 @@ func main() {
 			"plus seeded random histories (5..45 ops, thorough 5..125) over all five registries, on a fresh real server each, through the public Server API and raw HTTP POSTs on two sessions; order slices and key sets read through the verif hook after every mutation; " +
 			"non-trivial = a live entry was replaced or removed and the registry observed afterwards. " +
 			"concurrent (sub-processes, one per workload: tools all ops, tools under unthrottled registration, prompts list, prompts get, resources list, resources read, templates list, notification handlers): 3 writer goroutines (register / re-register / unregister on disjoint names) against 6 reader goroutines on 4 client sessions; " +
-			"each observation is checked post hoc against the writers' logical-clock log; non-trivial = an observation whose window overlapped at least one write",
+			"each observation is checked post hoc against the writers' logical-clock log; non-trivial = an observation whose window overlapped at least one write. " +
+			"register race (sub-processes, per registry): 5 fresh servers x 300 rounds in which 8 goroutines register the SAME fresh name at the same moment (GOMAXPROCS >= 4), then list + hook: one entry per name, order slice == key set",
 		Run: func(c *hk.Ctx) {
 			runSequential(c)
 			runConcurrent(c)
